@@ -91,7 +91,7 @@ def build(repo):
     arms = {
         "mm": "( Self :: List ( ListType :: Mixed ( t1 ) ) , Self :: List ( ListType :: Mixed ( t2 ) ) , _ )",
         "oo": "( Self :: List ( ListType :: Open ( t1 ) ) , Self :: List ( ListType :: Open ( t2 ) ) , _ )",
-        "mo": "( Self :: List ( ListType :: Mixed ( t1 ) ) , Self :: List ( ListType :: Open ( t2 ) ) , _ )",
+        "mo": "( Self :: List ( ListType :: Mixed ( $m1 ) ) , Self :: List ( ListType :: Open ( $m2 ) ) , _ )",
         "om": "( Self :: List ( ListType :: Open ( t2 ) ) , Self :: List ( ListType :: Mixed ( t1 ) ) , _ )",
     }
     flag_rules = [
@@ -181,10 +181,10 @@ pub fn eq_complex_arm_mixed_open(t1: &Vec<TL>, t2: &TL, flags: &Flags) -> (r: bo
 }}
 
 //@ OBL C02.compat.list.open-mixed
-// the other way round -- `[T...]` supplied where `[A, B]` is expected (D82): exactly when every slot ACCEPTS T (`[int?...]` does not fit `[int, int]`)
+// the other way round -- `[T...]` supplied where a fixed-shape list is expected: never (D82 / D83: a `[T...]` has no static length)
 #[verifier::loop_isolation(false)]
 pub fn eq_complex_arm_open_mixed(t1: &Vec<TL>, t2: &TL, flags: &Flags) -> (r: bool)
-    ensures r == open_into_mixed(t1@, *t2, *flags)
+    ensures !r
 {{
 {frag['mo']}
 }}
@@ -196,7 +196,7 @@ impl ListType {{
         ensures
             (self is Mixed && other is Mixed) ==> r == mixed_mixed(self->Mixed_0@, other->Mixed_0@, classless()),
             (self is Open && other is Open) ==> r == compat(*self->Open_0, *other->Open_0, classless()),
-            (self is Mixed && other is Open) ==> r == open_into_mixed(self->Mixed_0@, *other->Open_0, classless()),
+            (self is Mixed && other is Open) ==> !r,
             (self is Open && other is Mixed) ==> r == mixed_open(other->Mixed_0@, *self->Open_0, classless()),
     {{
 {render(ble, 2)}
@@ -237,7 +237,7 @@ fn main() {{}}
         Obl("C02.compat.list.mixed-mixed", ["C02", "C03"], fn="eq_complex_arm_mixed_mixed", desc="eq_complex, [A, B] vs [C, D]: compatible exactly when both have the same number of slots and every slot is"),
         Obl("C02.compat.list.open-open", ["C02", "C03"], fn="eq_complex_arm_open_open", desc="eq_complex, [T...] vs [U...]: compatible exactly when T and U are"),
         Obl("C02.compat.list.mixed-open", ["C02", "C03"], fn="eq_complex_arm_mixed_open", desc="eq_complex, [T...] expected, fixed-shape list supplied: compatible exactly when T accepts EVERY slot"),
-        Obl("C02.compat.list.open-mixed", ["C02", "C03"], fn="eq_complex_arm_open_mixed", desc="eq_complex, fixed-shape list expected, [T...] supplied: compatible exactly when every slot ACCEPTS T (D82: the test was mirrored)"),
+        Obl("C02.compat.list.open-mixed", ["C02", "C03"], fn="eq_complex_arm_open_mixed", desc="eq_complex, fixed-shape list expected, [T...] supplied: never compatible (D82: the test was mirrored; D83: the length of a [T...] is not known)"),
         Obl("C02.compat.listtype.eq", ["C02", "C03"], fn="ListType::eq", desc="PartialEq for ListType (the `lhs == rhs` shortcut in front of eq_complex): same three shapes, classless flags"),
         Obl("C02.coerce.open", ["C02", "C16"], fn="ListType::try_coerce_to_open", desc="try_coerce_to_open: a fixed-shape list is treated as [T...] only if it is non-empty and EVERY adjacent pair of slots is compatible; T is slot 0"),
     ]
